@@ -28,7 +28,7 @@ ASSUMPTIONS = [
     "must-pass uses the strict reading of 'differ only in parts matched by an ignore-pattern' (leftmost non-overlapping matches replaced), must-fail the most generous one (any alignment of matches); in between is unspecified",
     'ignore-patterns anchored on one side only, or able to match the empty string, are unspecified',
 ]
-REQUIRED_MONITORS = ['contract:check_strings', 'oracle:must-pass', 'oracle:must-fail', 'entry:check_strings',
+REQUIRED_MONITORS = ['history:options_withdrawn', 'contract:check_strings', 'oracle:must-pass', 'oracle:must-fail', 'entry:check_strings',
                      'entry:string', 'entry:file', 'entry:files']
 REQUIRED_CLASSES = ['subset=0', 'subset=127']
 
@@ -86,8 +86,7 @@ def run_case(ctx, case):
     d = ctx.scratch
     try:
         if entry == 'check_strings':
-            from tdda.referencetest.checkfiles import FilesComparison
-            fc = FilesComparison(verbose=False, tmp_dir=os.environ.get('TMPDIR'))
+            fc = r.files          # the comparison object of the long-lived ReferenceTest: state kept on it
             res = fc.check_strings(list(case['actual']), list(case['expected']), **ro)
             got = 'pass' if res.failures == 0 else 'fail'
             pairs = [(case['actual'], case['expected'])]
@@ -160,8 +159,23 @@ def run_case(ctx, case):
 
 
 def run_shard(ctx):
+    import copy
     for i in range(ctx.params['cases']):
-        run_case(ctx, gen_case(ctx.rng, i, ctx.shard))
+        case = gen_case(ctx.rng, i, ctx.shard)
+        run_case(ctx, case)
+        o = case['opts']
+        if i % 5 == 2 and any(k in o for k in ('ignore_patterns', 'ignore_substrings', 'remove_lines', 'max_permutation_cases')):
+            # history on one comparison object: the SAME texts again with the excusing options withdrawn (and
+            # then once more with them back) - whatever was excused before must be judged afresh
+            c2 = copy.deepcopy(case)
+            c2['opts'] = {k: v for k, v in o.items() if k not in ('ignore_patterns', 'ignore_substrings', 'remove_lines', 'max_permutation_cases')}
+            c2['subset'] = case['subset'] & ~(4 | 8 | 16 | 64)
+            c2['sequel'] = 'options-withdrawn'
+            run_case(ctx, c2)
+            ctx.rec.event('history:options_withdrawn')
+            c3 = copy.deepcopy(case)
+            c3['sequel'] = 'options-restored'
+            run_case(ctx, c3)
     for k, v in contracts.EVALS.items():
         ctx.rec.event('contract:' + k, v)
     contracts.EVALS.clear()
